@@ -31,26 +31,42 @@ class RecAxes:
 
 
 class RecPlt:
+    """pyplot recorder; keeps track of the CURRENT axes as pyplot does (the last axes created by
+    subplots, or the one selected with sca), so that state-machine calls (plt.plot, plt.xticks) are
+    attributed to the axes they would draw on"""
+
     def __init__(self):
         self.log = []
         self.n_subplots = 0
+        self.current = None
 
     def subplots(self, nrows=1, ncols=1, **kw):
         self.n_subplots += 1
         self.log.append(("plt", "subplots", (nrows, ncols), kw))
         axes = [RecAxes(self.log, f"ax{i}") for i in range(nrows * ncols)]
+        self.current = axes[-1].name
         return ("fig", axes[0] if len(axes) == 1 else axes)
+
+    def sca(self, ax):
+        self.current = ax.name
+        self.log.append(("plt", "sca", (ax.name,), {}))
+
+    def gca(self):
+        return RecAxes(self.log, self.current)
 
     def __getattr__(self, meth):
         def call(*a, **kw):
-            self.log.append(("plt", meth, a, kw))
+            self.log.append(("plt", meth, a, dict(kw, __current_axes__=self.current)))
         return call
 
 
-def symbolic_solution(P, layout, horizon):
+def symbolic_solution(P, layout, horizon, calendar=False):
     """a SchedulingSolution with symbolic times; layout: which tasks / resources / buffers exist.
     Times are Real constants (integral) - the reported values are ints, and int / 2 is true division."""
-    pb = ps.SchedulingProblem(name="gantt", horizon=horizon)
+    import datetime as _dt
+
+    kw = dict(delta_time=_dt.timedelta(minutes=30), start_time=_dt.datetime(2024, 1, 1, 8, 0)) if calendar else {}
+    pb = ps.SchedulingProblem(name="gantt", horizon=horizon, **kw)
     sol = SchedulingSolution(problem=pb)
     sol.horizon = horizon
     assume = []
@@ -107,13 +123,13 @@ LAYOUTS = {
 }
 
 
-def gantt_shape(layout_name, mode):
-    name = f"gantt/{layout_name}/{mode}"
+def gantt_shape(layout_name, mode, calendar=False):
+    name = f"gantt/{layout_name}/{mode}" + ("/calendar_times" if calendar else "")
 
     def build(P):
         import processscheduler.plotter as pp
 
-        pb, sol, assume = symbolic_solution(P, LAYOUTS[layout_name], 12)
+        pb, sol, assume = symbolic_solution(P, LAYOUTS[layout_name], 12, calendar)
         for a in assume:
             P.ex.add_assumption(a)
         rec = RecPlt()
@@ -134,6 +150,7 @@ def gantt_shape(layout_name, mode):
     sh = Shape(name, build, obligations, initialize=False)
     sh.grid = False
     sh.spec = (layout_name, mode)
+    sh.calendar = calendar
     return sh
 
 
@@ -214,8 +231,13 @@ def ob_buffers(ctx, path):
     if not sol.buffers:
         return {"status": "unsat", "queries": 0}
     plots = [(a, kw) for ax, meth, a, kw in log if ax == "plt" and meth == "plot"]
+    plots += [(a, kw) for ax, meth, a, kw in log if ax == "ax1" and meth == "plot" and a and len(a[0]) > 0]
     if len(plots) != len(sol.buffers):
         return _valid(ctx, path, False, f"{len(plots)} buffer curves for {len(sol.buffers)} buffers")
+    for a, kw in plots:
+        cur = kw.get("__current_axes__", "ax1")
+        if cur != "ax1":
+            return _valid(ctx, path, False, f"a buffer curve is drawn on axes {cur}, not on the buffer chart")
     for (a, kw), (bn, bs) in zip(plots, sol.buffers.items()):
         X, Y = a[0], a[1]
         xs = [0] + list(bs.level_change_times) + [sol.horizon]
@@ -231,7 +253,7 @@ def ob_buffers(ctx, path):
 
 
 # ---- concrete layer: the real Agg backend -----------------------------------------------------------------
-def agg_check(layout_name, mode, twice):
+def agg_check(layout_name, mode, twice, calendar=False):
     import matplotlib
 
     matplotlib.use("Agg")
@@ -244,7 +266,10 @@ def agg_check(layout_name, mode, twice):
     durs = {"A": 3, "B": 2, "C": 2}
 
     def make(shift):
-        pb = ps.SchedulingProblem(name="agg", horizon=14)
+        import datetime as _dt
+
+        kwc = dict(delta_time=_dt.timedelta(minutes=30), start_time=_dt.datetime(2024, 1, 1, 8, 0)) if calendar else {}
+        pb = ps.SchedulingProblem(name="agg", horizon=14, **kwc)
         sol = SchedulingSolution(problem=pb)
         sol.horizon = 14
         tasks = {}
@@ -284,6 +309,21 @@ def agg_check(layout_name, mode, twice):
                 v = pth.vertices
                 x0, x1, y0, y1 = v[:, 0].min(), v[:, 0].max(), v[:, 1].min(), v[:, 1].max()
                 rects.append((round(float(x0), 3), round(float(x1), 3), round(float(y0), 3), round(float(y1), 3)))
+        if sol.buffers:
+            if len(fig.axes) < 2:
+                problems.append("no buffer chart in the figure")
+            else:
+                curves = [l for l in fig.axes[1].lines if len(l.get_xdata()) > 0]
+                stray = [l for l in ax.lines if len(l.get_xdata()) > 0]
+                if len(curves) != len(sol.buffers) or stray:
+                    problems.append(f"{len(curves)} buffer curves on the buffer chart and {len(stray)} on the Gantt chart for {len(sol.buffers)} buffers (calendar={calendar})")
+                for l, (bn, bs) in zip(curves, sol.buffers.items()):
+                    xs = [x for x in l.get_xdata() if x == x]
+                    ys = [y for y in l.get_ydata() if y == y]
+                    want_x = [0] + [t for t in bs.level_change_times for _ in (0, 1)] + [sol.horizon]
+                    want_y = [lv for lv in bs.level for _ in (0, 1)]
+                    if [float(x) for x in xs] != [float(x) for x in want_x] or [float(y) for y in ys] != [float(y) for y in want_y]:
+                        problems.append(f"buffer {bn}: curve {list(zip(xs, ys))} is not the reported step function")
         eff_mode = mode if sol.resources else "Task"
         if eff_mode == "Resource":
             exp = [(rn, s, e) for rn, rs in sol.resources.items() for (tn, s, e) in rs.assignments]
@@ -304,14 +344,14 @@ def agg_check(layout_name, mode, twice):
     return problems
 
 
-def concrete_shape(layout_name, mode, twice):
-    name = f"agg/{layout_name}/{mode}/{'twice' if twice else 'once'}"
+def concrete_shape(layout_name, mode, twice, calendar=False):
+    name = f"agg/{layout_name}/{mode}/{'twice' if twice else 'once'}" + ("/calendar_times" if calendar else "")
 
     def build(P):
         return Ctx(problem=None)
 
     def fn(ctx, path):
-        problems = agg_check(layout_name, mode, twice)
+        problems = agg_check(layout_name, mode, twice, calendar)
         if problems:
             return {"status": "sat", "queries": 1, "witness": {"params": {}, "pins": {}, "what": problems[0]}}
         return {"status": "unsat", "queries": 1}
@@ -321,7 +361,7 @@ def concrete_shape(layout_name, mode, twice):
 
     sh = Shape(name, build, obligations, initialize=False)
     sh.grid = False
-    sh.spec = (layout_name, mode, twice)
+    sh.spec = (layout_name, mode, twice, calendar)
     return sh
 
 
@@ -343,7 +383,7 @@ def replay_gantt(desc):
 
     shape = H.get_shape(desc["module"], desc["shape"])
     layout_name, mode = shape.spec
-    problems = agg_check(layout_name, mode, False)
+    problems = agg_check(layout_name, mode, False, getattr(shape, "calendar", False))
     print("replay:", problems[:2], "| symbolic counterexample:", desc["witness"].get("what"))
     if problems:
         print("CONFIRMED: " + problems[0])
@@ -358,6 +398,9 @@ def shapes(tier):
             out.append(gantt_shape(ln, mode))
             out.append(concrete_shape(ln, mode, False))
             out.append(concrete_shape(ln, mode, True))
+            if ln in ("buffers", "two_resources", "zero_duration"):
+                out.append(gantt_shape(ln, mode, calendar=True))
+                out.append(concrete_shape(ln, mode, False, calendar=True))
     return out
 
 
